@@ -38,6 +38,7 @@ import Proofs.Lemmas.C14Work
 import Proofs.Lemmas.C14Slice
 import Proofs.Lemmas.C14Print
 import Proofs.Lemmas.C14Tok
+import Proofs.Lemmas.C14Order
 namespace Flatland.C14.Proofs
 open Flatland.Path Flatland.C14.Spec Flatland.Path.Lemmas
 
@@ -988,6 +989,81 @@ theorem find_print_cancel (root : Node) (start : Pos) (p : CPath) (single strict
   cases denote (cancel p.abstract) root start strict with
   | error e => cases single <;> rfl
   | ok res => cases single <;> rfl
+
+/-! ### results come in sequence order -/
+
+theorem denoteSteps_filter_here (root : Node) (strict : Bool) : ∀ (R : List Step) (cur : List Pos),
+    denoteSteps root strict (R.filter (fun s => !s.isHere)) cur = denoteSteps root strict R cur
+  | [], _ => rfl
+  | s :: R, cur => by
+    cases s with
+    | here =>
+      have hf : flatMapM (stepDen root strict .here) cur = .ok cur := by
+        have : stepDen root strict .here = fun el => .ok [el] := funext (fun el => rfl)
+        rw [this, flatMapM_pure]
+      simp only [List.filter_cons, Step.isHere, Bool.not_true, Bool.false_eq_true, if_false, denoteSteps, hf]
+      exact denoteSteps_filter_here root strict R cur
+    | up =>
+      simp only [List.filter_cons, Step.isHere, Bool.not_false, if_true, denoteSteps]
+      cases flatMapM (stepDen root strict .up) cur with
+      | error e => rfl
+      | ok next => exact denoteSteps_filter_here root strict R next
+    | name n =>
+      simp only [List.filter_cons, Step.isHere, Bool.not_false, if_true, denoteSteps]
+      cases flatMapM (stepDen root strict (.name n)) cur with
+      | error e => rfl
+      | ok next => exact denoteSteps_filter_here root strict R next
+    | negidx n =>
+      simp only [List.filter_cons, Step.isHere, Bool.not_false, if_true, denoteSteps]
+      cases flatMapM (stepDen root strict (.negidx n)) cur with
+      | error e => rfl
+      | ok next => exact denoteSteps_filter_here root strict R next
+    | slice a b c =>
+      simp only [List.filter_cons, Step.isHere, Bool.not_false, if_true, denoteSteps]
+      cases flatMapM (stepDen root strict (.slice a b c)) cur with
+      | error e => rfl
+      | ok next => exact denoteSteps_filter_here root strict R next
+
+/-- **"in sequence order"**: on the Canon domain, with ascending slice strides, the selected
+    elements are strictly increasing in document order — so there are no duplicates either -/
+theorem denote_sorted (root : Node) (strict : Bool) (p : Spec.Path) (hc : Canon p = true)
+    (hasc : p.steps.all Step.ascending = true) (el : Pos) (res : List Pos)
+    (h : denote p root el strict = .ok res) :
+    res.Pairwise (fun a b => posLt a b = true) := by
+  obtain ⟨Z, R, hsplit, hZ, hR⟩ := canon_split p.steps hc
+  unfold denote at h
+  rw [hsplit] at h hasc
+  obtain ⟨el', hz⟩ := denoteSteps_zone root strict Z (if p.top then [] else el) hZ
+  rw [hz R, ← denoteSteps_filter_here] at h
+  have hall : (R.filter (fun s => !s.isHere)).all (fun s => s.down && s.ascending) = true := by
+    rw [List.all_eq_true]
+    intro s hs
+    rw [List.mem_filter] at hs
+    rw [List.all_append, Bool.and_eq_true] at hasc
+    have hasc2 := hasc.2
+    rw [List.all_eq_true] at hR hasc2
+    have h1 := hR s hs.1
+    have h2 := hasc2 s hs.1
+    have h3 := hs.2
+    cases s <;> simp_all [Step.down, Step.isUp, Step.isHere]
+  have hlev : Level el'.length [el'] := ⟨by simp, by simp⟩
+  exact (denoteSteps_level root strict _ _ _ _ hall hlev h).2
+
+/-- the same for what `find` returns on a printed path -/
+theorem find_sorted (root : Node) (start : Pos) (p : CPath) (strict : Bool) (res : List Pos)
+    (hwf : p.wf = true) (hfit : ∀ c ∈ p.steps, StepFits c.step) (hc : Canon p.abstract = true)
+    (hasc : p.abstract.steps.all Step.ascending = true)
+    (h : find root start (print p) false strict = .many res) :
+    res.Pairwise (fun a b => posLt a b = true) := by
+  rw [find_print_denotes root start p false strict hwf hfit hc] at h
+  simp only [findSpec, Bool.false_eq_true, if_false] at h
+  cases hd : denote p.abstract root start strict with
+  | error e => rw [hd] at h; simp at h
+  | ok l =>
+    rw [hd] at h
+    simp only [FindRes.many.injEq] at h
+    subst h
+    exact denote_sorted root strict p.abstract hc hasc start l hd
 
 /-- a name step written as a segment (not as `[n]`), for a name the grammar can spell -/
 def NameSeg (c : CStep) : Prop := ∃ s, c.step = .name s ∧ c.sp.bracket = false ∧ GoodName s = true
